@@ -41,7 +41,7 @@ def scratch_root():
 
 
 def make_copy(tag):
-    d = tempfile.mkdtemp(prefix='pamqp-selftest-%s-' % tag,
+    d = tempfile.mkdtemp(prefix='pamqp-selftest-%s-' % tag.replace('/', '_'),
                          dir=scratch_root())
     subprocess.run(['rsync', '-a', '--exclude', '.git', '--exclude',
                     '__pycache__', '--exclude', '*.egg-info',
